@@ -560,7 +560,10 @@ MANIFEST = {
             "duplicates, missing second parents, wrong join direction and self-relatives are seen; featuretype, limit, "
             "order_by and reverse are composed with a brute-force filter; iter_by_parent_childs is compared with [parent] + "
             "children; the relations table is read with plain sqlite3 and must be L1 u L2; all orders of a graph must give "
-            "the same relation set. Held = no executed import disagreed.",
+            "the same relation set. A 'wide' class puts more than 1000 direct children under one feature, the last of them with "
+            "children of their own, and queries every feature. On every imported database two or more children()/parents() "
+            "generators are kept alive at once (nested loops, zip-like round robin, random schedules); each must yield what "
+            "the same call yields when consumed alone and what the model says. Held = no executed import disagreed.",
     "note": "Trusted: gvmon/models/hierarchy.py. The hostile-id class (blanks at the ends, U+0085/U+00A0, escaped TAB/LF) is "
             "kept apart: its violations are prefixed 'hostile-id class:'. update()/delete() histories are C10's.",
 }
